@@ -135,6 +135,12 @@ Theorem C13_monitor_growth_try_insert : forall E VS, 0 < E -> VS <= E -> forall 
   c13_mon s (TryInsert k v) OTryOk s' = true.
 Proof. exact c13_mon_growth_try_insert. Qed.
 
+(* ... and so does the whole monitor: every step of the model satisfies c13_mon (for insertions under hashbrown's own invariant
+   that a table never holds more entries than its capacity) *)
+Theorem C13_monitor_sound : forall E VS, 0 < E -> VS <= E -> forall s p o s' out evs, Inv E s -> wf_op E s p -> hb_ok s p o s' ->
+  stepA E VS fixed s p o = Some (s', out, evs) -> c13_mon s p out s' = true.
+Proof. exact c13_mon_sound. Qed.
+
 Example C13_example_reserve :
   let s := {| ents := []; cur := 0; maxs := 1000; tb := {| nb := 4; tombs := 0 |} |} in
   exists s', stepA 72 24 fixed s (Reserve 28) {| o_tomb := 0; o_reuse := false; o_alloc := true |} = Some (s', OUnit, rebuilt_ev s) /\ capacity (tb s') = 28.
@@ -151,3 +157,4 @@ Print Assumptions C13_growth_bounded.
 Print Assumptions C13_monitor_growth_insert.
 Print Assumptions C13_monitor_growth_try_insert.
 Print Assumptions C13_pinned_shrink_refuted.
+Print Assumptions C13_monitor_sound.
